@@ -498,6 +498,11 @@ func (b *teletextPageBuffer) dump(lastTime time.Time) (ps []*teletextPage) {
 
 // TODO Add tests
 func (b *teletextPageBuffer) process(d *astits.PESData, t time.Time) (ps []*teletextPage) {
+	// No data
+	if len(d.Data) == 0 {
+		return
+	}
+
 	// Data identifier
 	var offset int
 	dataIdentifier := uint8(d.Data[offset])
@@ -515,6 +520,9 @@ func (b *teletextPageBuffer) process(d *astits.PESData, t time.Time) (ps []*tele
 		offset += 1
 
 		// Length
+		if offset >= len(d.Data) {
+			break
+		}
 		length := uint8(d.Data[offset])
 		offset += 1
 
@@ -541,6 +549,11 @@ func (b *teletextPageBuffer) process(d *astits.PESData, t time.Time) (ps []*tele
 func (b *teletextPageBuffer) parseDataUnit(i []byte, id uint8, t time.Time) {
 	// Check id
 	if id != teletextPESDataUnitIDEBUSubtitleData {
+		return
+	}
+
+	// Data unit is too short to hold a framing code and a packet address
+	if len(i) < 4 {
 		return
 	}
 
@@ -577,10 +590,18 @@ func (b *teletextPageBuffer) parseDataUnit(i []byte, id uint8, t time.Time) {
 // TODO Add tests
 func (b *teletextPageBuffer) parsePacket(i []byte, magazineNumber, packetNumber uint8, t time.Time) {
 	if packetNumber == 0 {
+		// Packet is too short to hold the page address and the control bits
+		if len(i) < 8 {
+			return
+		}
 		b.parsePacketHeader(i, magazineNumber, t)
 	} else if b.receiving && magazineNumber == b.magazineNumber && (packetNumber >= 1 && packetNumber <= 25) {
+		// Packet is too short to hold the 40 characters
+		if len(i) < 40 {
+			return
+		}
 		b.parsePacketData(i, packetNumber)
-	} else {
+	} else if len(i) > 0 {
 		// Designation code
 		designationCode, ok := astikit.ByteHamming84Decode(i[0])
 		if !ok {
@@ -691,6 +712,11 @@ func (b *teletextPageBuffer) parsePacketData(i []byte, packetNumber uint8) {
 func (b *teletextPageBuffer) parsePacket28And29(i []byte, packetNumber, designationCode uint8) {
 	// Invalid designation code
 	if designationCode != 0 && designationCode != 4 {
+		return
+	}
+
+	// Packet is too short to hold triplet 1
+	if len(i) < 3 {
 		return
 	}
 
